@@ -202,6 +202,21 @@ def rule_selection(prog, rep):
     if ok:
         fs = facts_at(f, ts[0].block)
         ok = any(x[0] == "callbool" and "PartialEq" in x[1] and x[3] is True and any("TYPENAME" in (a or "") or "__typename" in (a or "") for a in x[2]) for x in fs) or any(x[0] == "callbool" and "PartialEq" in x[1] and x[3] is True for x in fs)
+    # the meta field is recognised by the field's *name*: an aliased `kind: __typename` is still
+    # __typename, and a field aliased `__typename: other` is not (sibling functions agree)
+    for g in [f] + prog.fns_matching("^" + RB + "overlaid_object$"):
+        tg = [c for c in g.live_calls() if re.search(r"ToString>?::to_string$", c.name)]
+        for t in tg:
+            eqs = [x for x in facts_at(g, t.block) if x[0] == "callbool" and re.search(r"PartialEq.*::eq$", x[1]) and x[3] is True]
+            if not eqs:
+                continue
+            byname = any(re.search(r"\.as:Some\.0\.1\b.*\.name$", g.sym(a)) for x in eqs for a in x[4].args)
+            rep.obligation(byname)
+            if byname:
+                rep.instance("C33.TYPENAME", "%s: the __typename test reads the name of the group's first field" % g.name.split("::")[-1])
+            else:
+                rep.finding("C33.TYPENAME", g.name, "typename-test",
+                            "the test that decides whether a group is the __typename meta field compares `%s`, not the field's name: an aliased `kind: __typename` is generated as an arbitrary String leaf (and a field aliased to `__typename` as a type name)" % " / ".join(g.sym(a)[-60:] for a in eqs[0][4].args), t.loc())
     rep.obligation(ok)
     if ok:
         rep.instance("C33.TYPENAME", "selection_set: one concrete_type(selection_set.ty) feeds both collect_fields and the __typename value")
